@@ -283,8 +283,10 @@ CrystalData expand_crystal(const CrystalSpec& s) {
   d.name = s.name;
   d.name_null = s.name_null;
   Rng r(s.cseed * 0x9e3779b97f4a7c15ULL + 77);
-  auto len = [&]() { return 2.0 + floor(r.unit() * 18000) / 1000.0; };   // 3 decimals: survives %g-free text round trip
-  auto coord = [&]() { return floor(r.unit() * 10000) / 10000.0; };
+  // every number is an integer over a power of ten: the correctly rounded quotient is exactly what strtod/%lf
+  // returns for the short decimal text the file renderer prints, so model and library agree bit for bit
+  auto len = [&]() { return (double)(2000 + (long)r.below(18000)) / 1000.0; };
+  auto coord = [&]() { return (double)(long)r.below(10000) / 10000.0; };
   switch (s.cellclass) {
     case 0: {
       double a = len();
@@ -296,7 +298,7 @@ CrystalData expand_crystal(const CrystalSpec& s) {
     case 1: {
       for (int tries = 0;; tries++) {
         d.cell[0] = len(); d.cell[1] = len(); d.cell[2] = len();
-        for (int k = 3; k < 6; k++) d.cell[k] = 60.0 + floor(r.unit() * 600) / 10.0;
+        for (int k = 3; k < 6; k++) d.cell[k] = (double)(600 + (long)r.below(600)) / 10.0;
         double ca = cos(d.cell[3] * M_PI / 180), cb = cos(d.cell[4] * M_PI / 180), cg = cos(d.cell[5] * M_PI / 180);
         double rad = 1 - ca * ca - cb * cb - cg * cg + 2 * ca * cb * cg;
         if (rad > 0.01 || tries > 50) {
@@ -308,7 +310,7 @@ CrystalData expand_crystal(const CrystalSpec& s) {
     }
     case 2:
       d.cell[0] = len(); d.cell[1] = len(); d.cell[2] = len();
-      d.cell[3] = 10.0; d.cell[4] = 170.0; d.cell[5] = 20.0 + floor(r.unit() * 100);  // radicand <= 0: NaN volume
+      d.cell[3] = 10.0; d.cell[4] = 170.0; d.cell[5] = 20.0 + (double)(long)r.below(100);  // radicand <= 0: NaN volume
       if (r.chance(1, 3)) { d.cell[3] = 0; d.cell[4] = 0; d.cell[5] = 0; }
       break;
     default:
@@ -324,7 +326,7 @@ CrystalData expand_crystal(const CrystalSpec& s) {
     } else {
       a.Z = r.chance(3, 4) ? r.range(1, 40) : r.range(1, 98);
     }
-    a.frac = r.chance(3, 4) ? 1.0 : floor(r.unit() * 1000) / 1000.0;
+    a.frac = r.chance(3, 4) ? 1.0 : (double)(long)r.below(1000) / 1000.0;
     a.x = coord(); a.y = coord(); a.z = coord();
     d.atoms.push_back(a);
   }
@@ -345,9 +347,11 @@ bool CrystalData::volume_comparable() const {
 }
 
 static void fmt_num(std::string& out, double v) {
+  // short decimal text (lines of the dialect must stay below 100 characters); a file is bytes, so the
+  // decimal point is '.' whatever the process locale is
   char b[64];
-  snprintf(b, sizeof b, "%.17g", v);
-  // the crystal file dialect is read with %lf in the C locale
+  snprintf(b, sizeof b, "%.12g", v);
+  for (char* p = b; *p; ++p) if (*p == ',') *p = '.';
   out += b;
 }
 
